@@ -2,6 +2,7 @@
 """Copies round-4 seeded changes from /tmp/mut4 + /tmp/mutrun/r4-* into /verif/seeded/<Cxx>-r4-<k>/."""
 import os, json, shutil, re, sys
 exec(open('/tmp/mut4_oneliners.py').read())
+NOTES4={('C13','3'):'not reported by the quick tier (expected collisions in a 1024-entry window at 16 M words: about one); reported by the thorough tier of C04 (many-distinct-words-one-instance, 160 M words: 7 violations in 85 s)', ('C04','2'):'reported by C04 many-distinct-words-one-instance (the table is unbounded, so 1 M words per instance give several collisions)', ('C11','3'):'reported by C11 many-scanners-over-distinct-contents (32 M scanners in the quick tier: about four collisions expected)'}
 for p in sorted(os.listdir('/tmp/mut4')):
     if not re.match(r'C\d\d$', p): continue
     for k in '123':
@@ -26,7 +27,16 @@ for p in sorted(os.listdir('/tmp/mut4')):
               "description_by_author":readme.strip(),
               "confirmed_by_me":{"how":"tools/verify_mutant.sh in a scratch worktree of /repo HEAD (apply, build, baseline with the tag off, demo with and without the patch)","result":ver},
               "quick_checks_that_fire_round1":caught}
-        for key in ("quick_checks_that_fire_after_strengthening","strengthening","note"):
-            if key in old: meta[key]=old[key]
+        run2='/tmp/mutrun/r4b-%s-%s'%(p,k)
+        if os.path.exists(run2+'/summary.txt'):
+            after=[]
+            for l in open(run2+'/summary.txt'):
+                m=re.match(r'(C\d\d) exit=(\d+)',l)
+                if m and m.group(2)=='1': after.append(m.group(1))
+            meta["quick_checks_that_fire_after_strengthening"]=after
+            meta["strengthening"]="batch 6 (DESIGN.md section 3, 'Round 4' notes)"
+        for key in ("strengthening","note"):
+            if key in old and key not in meta: meta[key]=old[key]
+        if (p,k) in NOTES4: meta["note"]=NOTES4[(p,k)]
         json.dump(meta,open(out+'/meta.json','w'),indent=1,ensure_ascii=False)
 print(len([d for d in os.listdir('/verif/seeded') if '-r4-' in d]))
